@@ -304,6 +304,50 @@ def check_tag_loop(chk, sname, body, info, P="C13"):
                 chk.require(from_req and not calls_other, P + "-c/missing-all", sname,
                             "the reported missing tags do not derive from the whole required set "
                             "(sources %s)" % sorted(map(str, srcs)), "vec <- required set", site)
+    # --- a) the loop is left only when the input is exhausted, makes no progress, holds no further
+    # tag, shows an unknown tag, or through an error return
+    ok_blocks_all = {r[0] for r in ret_assignments(body, body.reachable(0))
+                     if r[1] != "term" and r[2]["rv"]["r"] == "agg" and r[2]["rv"].get("vname") == "Ok"}
+    in_locals0 = {c["src"].l for c in tagged}
+    in_local0 = next(iter(in_locals0)) if len(in_locals0) == 1 else None
+    E0 = follow_false_edges(body, else_bb)
+    for x in sorted(loop_blocks):
+        for y in body.succ[x]:
+            if y in loop_blocks:
+                continue
+            if not (body.reachable(y) & ok_blocks_all):
+                continue            # error exit
+            tx = body.blocks[x]["term"]
+            benign = False
+            what = "bb%d -> bb%d" % (x, y)
+            if tx["t"] == "switch":
+                v = tr.value(tx["d"])
+                e_true = tx["else"]
+                if v.kind == "call" and callee(v.term).endswith("::is_empty") and in_local0 is not None:
+                    a = tr.value(v.term["args"][0])
+                    if a.kind == "ref" and a.place.strip_deref() == NPlace(in_local0, []) and y == e_true:
+                        benign = True
+                        what = "input empty"
+                if v.kind == "rv" and v.rv["r"] == "bin" and v.rv["op"] in ("Ne", "Eq") and in_local0 is not None:
+                    if progress_guard(body, tr, hdr, loop_blocks, in_local0, sw_bb) and \
+                            (len_of_local(tr, v.rv["a"], in_local0) or len_of_local(tr, v.rv["b"], in_local0)):
+                        benign = True
+                        what = "no progress"
+                if v.kind == "rv" and v.rv["r"] == "discr":
+                    src = tr.sources(v.rv["p"])
+                    cs = [s_ for s_ in src if s_[0] == "call"]
+                    if len(cs) == 1 and cs[0][1] == "zvt_builder::encoding::Encoding::decode":
+                        dt2 = body.blocks[cs[0][2]]["term"]
+                        if [ty_str(z) for z in dt2["f"]["a"]] == ["zvt_builder::encoding::Default", "zvt_builder::Tag"]:
+                            benign = True
+                            what = "no further tag decodable"
+                if x == sw_bb:
+                    benign = benign or follow_false_edges(body, y) == E0
+            if not benign and (body.dominates(E0, x) or x == E0):
+                benign = True       # inside the unknown-tag arm
+            chk.require(benign, P + "-a/loop-exit", "%s exit bb%d->bb%d" % (sname, x, y),
+                        "the tag loop can be left (and a value returned) while input with known tags remains: a later duplicate "
+                        "or field would go unnoticed", what, site)
     # --- d) unknown tag
     E = follow_false_edges(body, else_bb)
     eregion = region(body, E, stop=[hdr])
